@@ -778,6 +778,8 @@ type Policy struct {
 	// ArriveEarly: probability that a pending Get arrives instead of releasing a parked thread
 	ArriveEarly float64
 	MaxSteps    int
+	// HoldBuilders: probability per step that goroutines parked inside the builder are passed over
+	HoldBuilders float64
 }
 
 func (r *FEngine) start(g GetSpec, tids *[]int) {
@@ -950,6 +952,35 @@ func (r *FEngine) Exec(gets []GetSpec, pol Policy) []int {
 		}
 
 		tid := ready[r.rng.Intn(len(ready))]
+
+		// keep builders inside their build for a while: with probability HoldBuilders a goroutine parked inside the
+		// builder is passed over when somebody else can move (longer builds = more chances for a second build, a waiter or
+		// a new owner of the same key to meet one in flight)
+		if pol.HoldBuilders > 0 && r.rng.Float64() < pol.HoldBuilders {
+			var others []int
+
+			r.mu.Lock()
+			for _, t := range ready {
+				if pt := r.parked[t].point; pt != "bentry" && pt != "bexit" {
+					others = append(others, t)
+				}
+			}
+			r.mu.Unlock()
+
+			if len(others) > 0 {
+				tid = others[r.rng.Intn(len(others))]
+			} else if len(pending) > 0 {
+				// everybody is inside a builder: let the next Get arrive instead
+				g := pending[0]
+				pending = pending[1:]
+
+				r.start(g, &tids)
+				emit(fmt.Sprintf("MSpawn %s %s %s %s %s", N(uint64(g.Tid)), Key(g.Key), Bool(g.Skip), cellCoq(g), Z(time.Now().UnixNano())),
+					map[string]any{"action": "spawn", "get": g})
+
+				continue
+			}
+		}
 
 		r.mu.Lock()
 		p := r.parked[tid]
